@@ -39,6 +39,8 @@ CONSTANTS
     PrefixOf,             \* [prefix id -> set of keys that start with it]
     CacheSize,            \* capacity of the event cache ring
     SubCap,               \* capacity of a subscriber buffer
+    EventBatch,           \* 0: the sequencer hands its batch to the hub only when the next slot is empty; n > 0: also as soon as
+                          \* the batch holds n events (300 in the code: eventBatchSize)
     RingCap,              \* 0: one slot per revision (no wrap-around); n > 0: the write-result ring has n slots, revision r
                           \*    uses slot r % n (backend.go:41 watchersChanCapacity = 100000; txn.go:290-294)
     ClearInvalid,         \* TRUE (the code): the sequencer empties the slot of every event it consumes, valid or not
@@ -444,6 +446,7 @@ WatchEv(e) == [type |-> e.verb, key |-> e.key, rev |-> e.rev, val |-> e.val,
 \* consume slot committed+1                                                gate: seq.poll
 SeqPoll ==
     /\ seqpc = "poll"
+    /\ (EventBatch = 0 \/ Len(batch) < EventBatch)
     /\ SlotIx(committed + 1) \in DOMAIN slot
     /\ slot[SlotIx(committed + 1)] # NoEv
     \* (the code takes whatever event it finds in that slot for the next one: it does not look at its revision)
@@ -489,7 +492,8 @@ SeqCacheAdd ==
 \* next slot empty and something pending: hand the batch to the hub          gate: seq.poll
 SeqFlush ==
     /\ seqpc = "poll" /\ batch # << >>
-    /\ (SlotIx(committed + 1) \in DOMAIN slot => slot[SlotIx(committed + 1)] = NoEv)
+    /\ \/ (SlotIx(committed + 1) \in DOMAIN slot => slot[SlotIx(committed + 1)] = NoEv)
+       \/ (EventBatch > 0 /\ Len(batch) >= EventBatch)     \* a full batch goes out although more is waiting
     /\ chan' = Append(chan, batch)
     /\ batch' = << >>
     /\ H("seq", "SeqFlush", "seq.poll")
